@@ -328,7 +328,11 @@ fn gen_profile(profile: &str, seed: u64, n: usize, thorough: bool, out: &mut Out
         "c05" => {
             // rendered valid scripts under random layouts, all repository fixtures, duration sweep
             for f in FIXTURES {
-                if let Ok(t) = std::fs::read_to_string(format!("/repo/tests/{}", f)) {
+                if let Ok(t) = std::fs::read_to_string(format!(
+                    "{}/tests/{}",
+                    std::env::var("SLT_REPO").unwrap_or_else(|_| "/repo".into()),
+                    f
+                )) {
                     out.fmt(&t, &format!("c05 fixture {}", f));
                 }
             }
